@@ -10,10 +10,16 @@ build(model) -> bytes
 
 model = {
  "sheets": [ {"name": str,                                  # sheet name (attribute, entity-escaped)
+              "rownr": [int],                              # rows whose <row> is written without r= (optional)
+              "erows": [int],                              # rows written as cell-less <row/> elements (optional)
               "cells": [ {"r": int, "c": int,              # position; document order = sorted by (r, c)
+                          "nr": bool,                       # written without r= (optional key; the position must then be
+                                                            #   the one document order implies)
                           "t": "" | "n" | "s" | "str" | "inlineStr" | "b" | "e",      # "" = attribute absent
                           "hv": bool, "v": str,            # <v> present, its text
                           "his": bool, "isr": {"rich": bool, "runs": [str]},          # <is> present: <t> or <r><t>..
+                                                            # (optional "ph": str on a string item adds a phonetic run
+                                                            #  <rPh><t>ph</t></rPh><phoneticPr/>)
                                                             # (optional "sp": bool on a string item overrides where
                                                             #  xml:space="preserve" is written on its <t> elements)
                           "s": int,                         # style index, -1 = attribute absent
@@ -24,7 +30,7 @@ model = {
                           "tip": str, "disp": str} ],                        # tooltip= / display= attributes ("" = absent)
                                                                              # (old form: ext False and val = the location)
               "tcols": [str] } ],                          # column names of one table (header cells are not added)
- "sst":   [ {"rich": bool, "runs": [str]} ],               # shared string items (plain: one run)
+ "sst":   [ {"rich": bool, "runs": [str]} ],               # shared string items (plain: one run; no run: <si/>)
  "xfs":   [ int ],                                          # cellXfs: numFmtId per xf (xf 0 is the default format)
  "numfmts": [ {"id": int, "code": str} ],                  # custom number formats
  "names": [ {"name": str, "text": str, "local": int} ],    # defined names (local = -1: workbook scope)
@@ -108,13 +114,20 @@ def rst_body(item, opts, depth=0):
         for i, run in enumerate(item["runs"]):
             rpr = (i2 + "<rPr><b/><sz val=\"11\"/><rFont val=\"Calibri\"/></rPr>") if i % 2 == 0 else ""
             parts.append("%s<r>%s%s%s%s</r>" % (i1, rpr, i2, t_elem(run, opts, item.get("sp")), i1))
-        return "".join(parts) + i0
-    return i1 + t_elem(item["runs"][0] if item["runs"] else "", opts, item.get("sp")) + i0
+        return "".join(parts) + phonetic(item, opts, i1, i2) + i0
+    return i1 + t_elem(item["runs"][0] if item["runs"] else "", opts, item.get("sp")) + phonetic(item, opts, i1, i2) + i0
+
+
+def phonetic(item, opts, i1, i2):
+    """<rPh> + <phoneticPr> of a string item that has a phonetic text ("ph"); they are not part of the item's text"""
+    if not item.get("ph"):
+        return ""
+    return '%s<rPh sb="0" eb="1">%s%s%s</rPh>%s<phoneticPr fontId="0"/>' % (i1, i2, t_elem(item["ph"], opts), i1, i1)
 
 
 def cell_xml(c, opts):
     a = []
-    if opts.get("rowr", True):
+    if opts.get("rowr", True) and not c.get("nr"):
         a.append('r="%s%d"' % (colname(c["c"]), c["r"]))
     if c["s"] >= 0:
         a.append('s="%d"' % c["s"])
@@ -154,13 +167,19 @@ def sheet_xml(sh, opts, link_rids, table_rid):
         c2 = max(c["c"] for c in sh["cells"])
         out.append('<dimension ref="%s%d:%s%d"/>' % (colname(c1), r1, colname(c2), r2))
     out.append('<sheetViews><sheetView workbookViewId="0"/></sheetViews><sheetFormatPr defaultRowHeight="15"/>')
+    rownr = set(sh.get("rownr", []))
+    for r in sh.get("erows", []):                  # cell-less <row> elements
+        rows.setdefault(r, [])
     if rows:
         out.append("<sheetData>")
         for r in sorted(rows):
             cs = sorted(rows[r], key=lambda c: c["c"])
             a = []
-            if opts.get("rowr", True):
+            if opts.get("rowr", True) and r not in rownr:
                 a.append('r="%d"' % r)
+            if not cs:
+                out.append(ind(opts, 2) + "<row%s/>" % ((" " + " ".join(a)) if a else ""))
+                continue
             if opts.get("spans"):
                 a.append('spans="%d:%d"' % (cs[0]["c"], cs[-1]["c"]))
             out.append(ind(opts, 2) + "<row%s>" % ((" " + " ".join(a)) if a else ""))
@@ -274,7 +293,10 @@ def build(model):
         overrides.append(("/xl/sharedStrings.xml", CT + "sharedStrings+xml"))
         s = [DECL, '<sst xmlns="%s" count="%d" uniqueCount="%d">' % (NS_MAIN, len(sst), len(sst))]
         for item in sst:
-            s.append(ind(opts, 1) + "<si>%s</si>" % rst_body(item, opts, 1))
+            if not item["rich"] and not item["runs"]:
+                s.append(ind(opts, 1) + "<si/>")           # the empty item as an empty-element tag
+            else:
+                s.append(ind(opts, 1) + "<si>%s</si>" % rst_body(item, opts, 1))
         s.append(ind(opts, 0) + "</sst>")
         parts["xl/sharedStrings.xml"] = "".join(s)
     parts["xl/_rels/workbook.xml.rels"] = rels_xml(wb_rels, mode)
